@@ -383,7 +383,30 @@ def job_collapse_glue(stack):
             return False, 'real radial_solver did not succeed on the replay configuration: %r' % o_
         return o_.get('love_vs_result_surface', 0.0) > 1e-9, 'real radial_solver(solve_for=(tidal, loading)): [k from result[6t+4, -1] - 1, k reported in .love] per type = %r (relative mismatch %r)' % (o_.get('love_rows'), o_.get('love_vs_result_surface'))
 
+    def rp_iface(md):
+        # public-API replay: layered planets whose density varies inside every layer (so that 'top of the lower layer' and 'bottom of the layer above' differ): the potential (and y1, y2, y6
+        # where no static liquid is involved) must agree between the last slice of a layer and the first slice of the next one to round-off
+        worst, outs = 0.0, []
+        for cfg in ({'layers': [['solid', False, False], ['liquid', True, False], ['solid', False, False]], 'solve_for': ['tidal', 'loading'], 'gradient': True, 'slices_per_layer': 30},
+                    {'layers': [['solid', False, False], ['liquid', False, False], ['liquid', True, False], ['solid', True, False]], 'solve_for': ['tidal'], 'gradient': True, 'slices_per_layer': 30,
+                     'frequency': 1.0e-4},
+                    {'layers': [['solid', False, False], ['solid', True, False]], 'solve_for': ['tidal', 'loading'], 'gradient': True, 'slices_per_layer': 30}):
+            import c06
+            o_ = c06.real_solver(cfg)
+            if o_.get('crashed'):
+                return True, 'real radial_solver crashed on %r' % cfg
+            if not o_.get('success'):
+                outs.append((cfg['layers'], 'not solved: %s' % str(o_.get('message'))[:80]))
+                continue
+            outs.append((cfg['layers'], o_.get('interface_jumps_max')))
+            worst = max(worst, o_.get('interface_jumps_max') or 0.0)
+        return worst > 1e-6, 'real radial_solver with density gradients inside the layers: largest relative jump of y5 (y1, y2, y6) across an interface per stack = %r' % (outs,)
+
     def ob(name, conds, key):
+        if key == 'interface-call':
+            results.append(discharge(Obligation('collapse loop [%s]: %s' % (tag, name), z3.And(*conds) if conds else z3.BoolVal(True), [], with_axioms=False, with_dens=False,
+                                                replay=replay.api_or_witness([SOLVER, COL, INT, REV], rp_iface, 'interface call site of the collapse loop receives a different quantity'), key='glue:%s' % key)))
+            return
         rp_ = replay.api_or_witness([SOLVER, COL, 'TidalPy/RadialSolver/love.pyx'], rp_love, 'Love-number extraction reads a different row than the collapse wrote') if key == 'love-extraction' \
             else (lambda md, name=name: (True, 'call-site data flow of cf_radial_solver (transliterated current solver.pyx): %s' % name))
         results.append(discharge(Obligation('collapse loop [%s]: %s' % (tag, name), z3.And(*conds) if conds else z3.BoolVal(True), [], with_axioms=False, with_dens=False,
